@@ -2,13 +2,16 @@
 From VG Require Import Corr.Base.
 Open Scope Z_scope.
 
-(** in: [kind (0 REST client, 1 RPC -> REST -> RPC chain, 2 ill-typed parameter); call; target]
+(** in: [kind (0 REST client, 1 RPC -> REST -> RPC chain, 2 ill-typed parameter, 3 backend error, 4 message that does not fit the route); call; target]
     out: [backend received exactly the intended request message; client received the response message;
           client outcome code; HTTP status; backend calls; panic] *)
 Definition rest_ok (i o : V) : bool :=
   let kind := vz (vnth 0 i) in
-  negb (vb (vnth 5 o)) &&
-  (if kind =? 3 then
+  negb (vb (vnth 5 o)) && (vz (vnth 8 o) =? 1) &&     (* no panic, one response head *)
+  (if kind =? 4 then
+     (* a message that cannot be put on the route of the REST hop: refused, nothing dispatched *)
+     negb (vz (vnth 2 o) =? 0) && (vz (vnth 4 o) =? 0)
+   else if kind =? 3 then
      (* the backend ended the RPC with an error: same code, message and number of details at the client *)
      (vz (vnth 2 o) =? vz (vnth 3 i)) && (vz (vnth 6 o) =? vz (vnth 4 i)) && vb (vnth 7 o)
    else if kind =? 2 then (vz (vnth 2 o) =? 3) && (vz (vnth 3 o) =? 400)
